@@ -58,11 +58,27 @@ def cases(rng, tier):
         if mod is not None and mod > np.iinfo(dt).max:
             mod = None
         absent = [a for a in htgen.absent_keys(rng, keys, dt, mod)]
+        # the ends of the key dtype (and 0) as NON-keys: values an implementation may use as a marker
+        absent += [a for a in (int(np.iinfo(dt).min), int(np.iinfo(dt).max), 0, -1) if a not in keys and np.iinfo(dt).min <= a <= np.iinfo(dt).max and a not in absent]
         init = rng.choice(["default", "default", 0, 5, 0.5, "array"])
         if init == "array":
             init = [rng.randint(0, 9) for _ in keys]
         batches = [_batch(rng, keys, absent) for _ in range(rng.randint(1, 5))]
         out.append({"keys": keys, "kdtype": dt, "mod": mod, "init": init, "batches": batches, "pseed": rng.randint(0, 999)})
+    # NARROW key dtypes with MANY buckets (hashes close to the dtype's maximum: arithmetic on them in the key dtype wraps)
+    for _ in range(150 if tier == "quick" else 2000):
+        dt = rng.choice(["int8", "uint8", "int16", "uint16"])
+        info = np.iinfo(dt)
+        n = rng.randint(20, min(110, int(info.max) - 2))
+        lo = 0 if dt.startswith("u") or rng.random() < 0.5 else int(info.min)
+        keys = rng.sample(range(lo, min(int(info.max), lo + 4 * n) + 1), n)
+        mod = rng.choice([None, None, int(info.max), int(info.max) // 2 + 1, min(int(info.max), 2 * n + 7), min(int(info.max), 20001)])
+        if mod is None and 2 * n - 1 > info.max:
+            mod = int(info.max)
+        pool = [k for k in range(max(int(info.min), lo - 5), min(int(info.max), lo + 4 * n + 5) + 1) if k not in set(keys)]
+        absent = rng.sample(pool, min(len(pool), 12)) + [a for a in (int(info.min), int(info.max), 0) if a not in keys]
+        batches = [_batch(rng, keys, absent) for _ in range(rng.randint(1, 3))] + [list(keys) * rng.randint(1, 3)]
+        out.append({"keys": keys, "kdtype": dt, "mod": mod, "init": rng.choice(["default", 0, 2]), "batches": batches, "pseed": rng.randint(0, 999)})
     # BIG batches (tens of thousands of samples in one call): long stretches without any key followed by keys, uneven repetition,
     # non-keys smaller and larger than the keys, non-keys in empty and in occupied buckets
     plan = [(70000, "nokey_then_keys"), (12000, "mixed"), (rng.choice([65536, 131072, 10001]), rng.choice(["nokey_then_keys", "mixed"]))]
